@@ -423,6 +423,15 @@ impl<'buf, IO: Io> Connection<'_, 'buf, IO> {
         Ok(())
     }
 
+    /// Complete the packet that is already partially on the wire, if any, so that the next
+    /// packet starts on a packet boundary.
+    pub(super) async fn finish_in_progress(&mut self) -> Result<(), Error<IO::Error>> {
+        while let Some(step) = self.session.data.outbound.in_progress_step() {
+            self.perform_outbound_step(step, Instant::now()).await?;
+        }
+        Ok(())
+    }
+
     pub(super) async fn flush_outbound(&mut self) -> Result<(), Error<IO::Error>> {
         loop {
             self.maybe_queue_pingreq(Instant::now())?;
